@@ -1159,7 +1159,12 @@ def transform(fn, proceed, to_instrument=True, set_conformer=True):
     if to_instrument is True:
         to_instrument = [_GENERIC]
 
-    src = dedent(inspect.getsource(fn))
+    try:
+        src = dedent(inspect.getsource(fn))
+    except OSError:
+        raise TypeError(
+            f"transform() requires the source code of the function (got {fn})"
+        )
 
     # Scrape the comments in the function's source and map them to lines.
     comments = {}
@@ -1176,9 +1181,16 @@ def transform(fn, proceed, to_instrument=True, set_conformer=True):
 
     # Perform the transform
     filename = inspect.getsourcefile(fn)
-    tree = ast.parse(src, filename)
-    tree = tree.body[0]
-    assert isinstance(tree, ast.FunctionDef)
+    try:
+        tree = ast.parse(src, filename)
+        tree = tree.body[0]
+    except (SyntaxError, IndexError):
+        tree = None
+    if not isinstance(tree, ast.FunctionDef):
+        raise TypeError(
+            "transform() only works on functions defined with a def"
+            f" statement, not lambdas or async functions (got {fn})"
+        )
     tree.decorator_list = []
 
     fnsym = _gensym()
